@@ -12,4 +12,6 @@ cp "$demo" "$S/internal/zzdemo/zz_demo_test.go"
 (cd "$S" && go test -count=1 -v ./internal/zzdemo/ "$@" 2>&1 | grep -v "^=== RUN" | head -80)
 rc=$?
 rm -rf "$S"
+# every scratch copy has its own path, so the build cache grows with each demo: keep it below 20 GB
+if [ "$(du -s "$(go env GOCACHE)" 2>/dev/null | cut -f1)" -gt 20000000 ] 2>/dev/null; then go clean -cache >/dev/null 2>&1; fi
 exit $rc
